@@ -6,6 +6,9 @@
   Enums.lean      Tag / ErrorCode / WriteResult discriminants
   Structure.lean  inventory of global state in core/provider/api, Context fields, what the
                   (re)initialisers carry over
+  FnsNanBox.lean  FnsLogs.lean  FnsState.lean
+                  bodies of small functions (NaN-box encode/number; log ring append/read_ptrs; the
+                  per-container counters of the write state machine) translated by rs2lean.py
   Abi.lean        the ABI tables C15 compares (WAT, C header compiled now, Rust extern block,
                   trampoline tables, provider exports, README / header code tables)
 
@@ -754,6 +757,100 @@ def gen_abi():
         "readme": {"tags": tags, "errors": errs, "status": stats}, "headerDefines": hdr_defs}
 
 
+# --------------------------------------------------------------------------- function bodies
+
+FNS_HEADER = ["-- REGENERATED by /verif/extract/extract.py (rs2lean) from function bodies in /repo; do not edit",
+              "import SfVerif.Gen.Consts", "import SfVerif.Gen.Enums", "namespace SfVerif.Gen"]
+
+
+def gen_fns_nanbox(const_names):
+    """Gen/FnsNanBox.lean: NanBox::encode / NanBox::number (core/src/read.rs)"""
+    import rs2lean
+    try:
+        core = strip_comments(strip_tests(read("core/src/read.rs")))
+        out = list(FNS_HEADER)
+        params, body = rs2lean.find_fn(core, "encode", "NanBox")
+        if [x.split(":")[0].strip() for x in params.split(",") if x.strip()] != ["ptr", "len", "tag"]:
+            raise ExtractError("NanBox::encode parameters changed: %s" % params)
+        out.append("/-- `NanBox::encode` (core/src/read.rs) -/")
+        out.append("def nanbox_encode (w ptr len tag : Nat) : Nat :=")
+        out.append(rs2lean.translate(body, {"ptr": "ptr", "len": "len", "tag": "tag"}, const_names))
+        out.append("")
+        params, body = rs2lean.find_fn(core, "number", "NanBox")
+        out.append("/-- `NanBox::number` (the NaN assertion is the caller's obligation) -/")
+        out.append("def nanbox_number (w bits : Nat) : Nat :=")
+        out.append(rs2lean.translate(body, {"val": "bits"}, const_names))
+        out += ["", "end SfVerif.Gen"]
+        return "\n".join(out) + "\n"
+    except rs2lean.TranslateError as e:
+        raise ExtractError("rs2lean: %s" % e)
+
+
+def gen_fns_logs():
+    """Gen/FnsLogs.lean: Logs::append / Logs::read_ptrs (provider/src/log.rs)"""
+    import rs2lean
+    try:
+        log = strip_comments(strip_tests(read("provider/src/log.rs")))
+        out = list(FNS_HEADER)
+        out += ["/-- `ptr.add(n)` on a pointer into the log buffer, as an offset (`none` = null) -/",
+                "def ptrAdd (p : Option Nat) (n : Nat) : Option Nat := p.map (· + n)", ""]
+        params, body = rs2lean.find_fn(log, "append", "Logs")
+        out.append("/-- `Logs::append`: ((skip, dst1, len1, dst2, len2), offset', len') -/")
+        out.append("def log_append (offset len0 n : Nat) : (Nat × Option Nat × Nat × Option Nat × Nat) × Nat × Nat :=")
+        out.append(rs2lean.translate(body, {"len": "n", "self.offset": "offset", "self.len": "len0"},
+                                     {"CAPACITY": "LOG_CAPACITY"}, ["self.offset", "self.len"]))
+        out.append("")
+        params, body = rs2lean.find_fn(log, "read_ptrs", "Logs")
+        out.append("/-- `Logs::read_ptrs`: (ptr1, len1, ptr2, len2) -/")
+        out.append("def log_read_ptrs (offset len0 : Nat) : Option Nat × Nat × Option Nat × Nat :=")
+        out.append(rs2lean.translate(body, {"self.offset": "offset", "self.len": "len0"}, {"CAPACITY": "LOG_CAPACITY"}))
+        out += ["", "end SfVerif.Gen"]
+        return "\n".join(out) + "\n"
+    except rs2lean.TranslateError as e:
+        raise ExtractError("rs2lean: %s" % e)
+
+
+def gen_fns_state():
+    """Gen/FnsState.lean: the write state machine (provider/src/write/state.rs), every method"""
+    import rs2lean
+    try:
+        state = strip_comments(strip_tests(read("provider/src/write/state.rs")))
+        # the shape of the data the translation relies on
+        if not re.search(r"enum\s+State\s*\{\s*(?:#\[default\]\s*)?Start\s*,\s*Object\(ObjectState\)\s*,\s*Array\(ArrayState\)\s*,\s*End\s*,?\s*\}", state):
+            raise ExtractError("enum State is no longer Start | Object(ObjectState) | Array(ArrayState) | End")
+        for st in ("ObjectState", "ArrayState"):
+            if not re.search(r"struct\s+%s\s*\{\s*length\s*:\s*usize\s*,\s*num_inserted\s*:\s*usize\s*,?\s*\}" % st, state):
+                raise ExtractError("struct %s is no longer { length: usize, num_inserted: usize }" % st)
+        _, sp = rs2lean.find_fn(state, "swap_and_push", "State")
+        if re.sub(r"\s+", "", sp) != "letmutnew_state=new_state;std::mem::swap(self,&mutnew_state);parent_state_stack.push(new_state);":
+            raise ExtractError("State::swap_and_push is no longer `swap self with the new state, push the old one`")
+        out = ["-- REGENERATED by /verif/extract/extract.py (rs2lean) from function bodies in /repo; do not edit",
+               "import SfVerif.Model.Writer", "namespace SfVerif.Gen", "open SfVerif"]
+        for impl, fn, lean in [("ObjectState", "write_string", "obj_write_string"),
+                               ("ObjectState", "write_non_string_value", "obj_write_non_string_value"),
+                               ("ArrayState", "write_value", "arr_write_value")]:
+            params, body = rs2lean.find_fn(state, fn, impl)
+            out.append("/-- `%s::%s`: (status, num_inserted') -/" % (impl, fn))
+            out.append("def %s (length num_inserted : Nat) : Nat × Nat :=" % lean)
+            out.append(rs2lean.translate(body, {"self.length": "length", "self.num_inserted": "num_inserted"},
+                                         {}, ["self.num_inserted"]))
+            out.append("")
+        out += ["/-- `parent_state_stack.pop().unwrap_or(State::End)` -/",
+                "def popOrEnd : List WState → WState × List WState", "  | [] => (.done, [])", "  | s :: r => (s, r)", ""]
+        for fn, args, params in [("write_string", "", {}), ("write_non_string_scalar", "", {}),
+                                 ("start_object", "(len : Nat) ", {"length": "len"}), ("finish_object", "", {}),
+                                 ("start_array", "(len : Nat) ", {"length": "len"}), ("finish_array", "", {})]:
+            _, body = rs2lean.find_fn(state, fn, "State")
+            out.append("/-- `State::%s`: (state', parent stack', status) -/" % fn)
+            out.append("def state_%s %s(st : WState) (stack : List WState) : WState × List WState × Nat :=" % (fn, args))
+            out.append(rs2lean.translate_state_method(body, params))
+            out.append("")
+        out.append("end SfVerif.Gen")
+        return "\n".join(out) + "\n"
+    except rs2lean.TranslateError as e:
+        raise ExtractError("rs2lean: %s" % e)
+
+
 def write_if_changed(name, content):
     path = os.path.join(OUT, name)
     old = None
@@ -782,6 +879,15 @@ def main():
             report["changed"].append("Enums.lean")
     except ExtractError as e:
         report["errors"].append("consts/enums: %s" % e)
+    for fname, prefix, gen in [("FnsNanBox.lean", "fns-nanbox", lambda: gen_fns_nanbox(re.findall(r"^def ([A-Z0-9_]+) ", consts or "", flags=re.M))),
+                               ("FnsLogs.lean", "fns-logs", gen_fns_logs),
+                               ("FnsState.lean", "fns-state", gen_fns_state)]:
+        try:
+            text = gen()
+            if write_if_changed(fname, text):
+                report["changed"].append(fname)
+        except ExtractError as e:
+            report["errors"].append("%s: %s" % (prefix, e))
     try:
         st = gen_structure()
         if write_if_changed("Structure.lean", st):
